@@ -161,6 +161,7 @@ func (s *Scorch) persisterLoop() {
 OUTER:
 	for {
 		atomic.AddUint64(&s.stats.TotPersistLoopBeg, 1)
+		verifHook("persist.loop", s)
 
 		select {
 		case <-s.closeCh:
